@@ -178,6 +178,14 @@ func (e *Env) c17runs() []*c17run {
 			"dup", "dup", "dup", "Dup", "DUP", "\u0130", "\u0131", "\u017f", "\u1e9e", "\u00df", "\u03c2", "\u03c3", "\u03a3"}
 		special = append(special, goKeywords...)
 		mk := &c17run{name: "all-marks-and-letters", inputs: map[string]string{}, shape: "plain"}
+		// one very long word (beyond 64 KiB scanner limits) and one very long file
+		huge := []string{"ab", strings.Repeat("\u00e9\u4e00z", 60000), "cd"}
+		var many []string
+		for i := 0; i < 70000; i++ {
+			many = append(many, string(allLetters[i%len(allLetters)])+string(rune('a'+i%26))+string(rune('a'+(i/26)%26)))
+		}
+		w3 = append(w3, huge...)
+		w4 = append(w4, many...)
 		lists := [][]string{w1, w2, w3, w4, special, append(append([]string{}, special...), special...), w1[:len(w1)/2], w2[len(w2)/2:], w3[:100], w4[:len(w4)/3]}
 		for fi, f := range ref.Files {
 			body := strings.Join(lists[fi], "\n")
